@@ -94,6 +94,8 @@ def describe(tier):
 F, G, F2 = ["f", "a"], ["f", "g"], ["f", "b"]
 ACC, ACC2 = ["acc", "s"], ["acc", "t"]
 CA, CB = ["cache", "A"], ["cache", "B"]
+# a second cache whose file name continues the first one's ("A.pkl" and "A.pkl.b.pkl"): different caches
+CB2 = ["cache", "A.pkl.b"]
 
 
 def _shapes(tier):
@@ -118,6 +120,7 @@ def _shapes(tier):
         ]
     two = [
         [CA, CB],
+        [F, CA, F2, CB2],
         [F, CA, F2, CB],
         [F, CA, F2, CB, G],
         [F, CA, ACC, CB],
@@ -190,6 +193,12 @@ def shards(tier):
                         continue
                     out.append({"mode": mode, "n": n, "shape": si, "flow": fk, "depth": depth,
                                 "bound": "%s n=%d depth<=%d" % (mode, n, depth)})
+    for n in range(1, d["plain_N"] + 1):
+        for si, (placement, elems, bufsize) in enumerate(_shapes(tier)):
+            sh = {"placement": placement, "elems": elems}
+            if reusable(sh):
+                out.append({"mode": "reused", "n": n, "shape": si, "flow": "ints", "depth": 3,
+                            "bound": "one pipeline object, n=%d depth<=3" % n})
     return out
 
 
@@ -383,6 +392,121 @@ def execute(shape, run, r, keep, counters=None):
         outcome = "exc:" + type(e).__name__
     it = None
     return {"out": out, "outcome": outcome, "pulls": ev.pulls, "calls": ev.calls}
+
+
+class Pipeline(object):
+    """One pipeline object used for all runs of a history (a long-lived process that runs its analysis
+    again). Only for shapes whose elements keep no state of their own (logging callables and caches):
+    then every run must look exactly as the statement says, whether the objects are new or used."""
+
+    def __init__(self, shape):
+        self.shape = shape
+        self.ev = Events()
+        self.src = Src([], self.ev, None, shape["flow"] == "shared")
+        caches = []
+        els = [_make(s, self.ev, set(), caches) for s in shape["elems"]]
+        pl = shape["placement"]
+        if pl == "source":
+            self.obj, self.call = lena.core.Source(self.src, *els), True
+        elif pl == "sequence":
+            self.obj, self.call = lena.core.Sequence(*els), False
+        elif pl == "nested":
+            p = M.cache_positions(shape["elems"])[-1]
+            self.obj = lena.core.Source(self.src, lena.core.Sequence(*els[:p + 1]), *els[p + 1:])
+            self.call = True
+        elif pl == "split_seq":
+            self.obj = lena.core.Source(self.src, lena.core.Split([lena.core.Sequence(*els)], **_bufsize(shape)))
+            self.call = True
+        elif pl == "split_tuple":
+            self.obj = lena.core.Source(self.src, lena.core.Split([tuple(els)], **_bufsize(shape)))
+            self.call = True
+        else:
+            raise ValueError(pl)
+
+    def execute(self, run, r, keep):
+        shape, ev = self.shape, self.ev
+        ev.pulls = 0
+        ev.calls.clear()
+        self.src.values = M.flow_values(shape["flow"], shape["n"], r)
+        take = copy.deepcopy if shape["flow"] == "shared" else (lambda v: v)
+        out, outcome = [], "ok"
+        try:
+            it = self.obj() if self.call else self.obj.run(self.src())
+            if run["kind"] == "stop":
+                for _ in range(run["k"]):
+                    try:
+                        out.append(take(next(it)))
+                    except StopIteration:
+                        outcome = "short"
+                        break
+                if run.get("close", True):
+                    close = getattr(it, "close", None)
+                    if close is not None:
+                        close()
+                else:
+                    keep.append(it)
+            else:
+                for v in it:
+                    out.append(take(v))
+        except Exception as e:  # the type is the outcome (R3)
+            outcome = "exc:" + type(e).__name__
+        return {"out": out, "outcome": outcome, "pulls": ev.pulls, "calls": dict(ev.calls)}
+
+
+def reusable(shape):
+    return (shape["placement"] in ("source", "sequence", "nested", "split_seq", "split_tuple")
+            and all(sp[0] in ("f", "cache") for sp in shape["elems"]))
+
+
+def _reuse_runs(shape):
+    L = _final_len(shape)
+    runs = [{"kind": "complete", "op": "none", "which": "all"}]
+    for k in range(L + 1):
+        runs.append({"kind": "stop", "k": k, "close": True, "op": "none", "which": "all"})
+    return runs
+
+
+def explore_reused(res, shape, maxdepth):
+    """All histories of <= maxdepth runs (complete, or stopped and closed after k results) of one
+    pipeline object, each re-executed from an empty directory, every run judged by the model."""
+    split = shape["placement"].startswith("split")
+    runs = _reuse_runs(shape)
+
+    def go(hist):
+        _wipe()
+        model = M.Model(shape["elems"], shape["flow"], shape["n"], split)
+        pipe = None
+        keep = []
+        ok = True
+        for r, run in enumerate(hist):
+            if pipe is None or run.get("rebuild"):
+                # built now, i.e. over whatever cache files the earlier runs left (a filled cache in a
+                # Split branch is hoisted into a Source at construction)
+                pipe = Pipeline(shape)
+            obs = pipe.execute(run, r, keep)
+            if r < len(hist) - 1:
+                if model.step(run, r, obs) is not None:
+                    ok = False          # judged when that prefix was the history
+                    break
+            else:
+                res.count("runs_of_a_reused_pipeline_object")
+                case_hist = [dict(h, reused_pipeline=True) for h in hist]
+                ok = _judge(res, shape, model, run, r, obs, case_hist[:-1])
+                if not ok:
+                    # the recorded history must say how it was executed
+                    for ck in res.viol:
+                        v = res.viol[ck][1]
+                        if v["case"].get("history") == case_hist[:-1] + [run]:
+                            v["case"]["history"] = case_hist
+                            v["cause"]["pipeline_object"] = "reused"
+        _release(keep)
+        if ok and len(hist) < maxdepth:
+            for run in runs:
+                go(hist + [run])
+                go(hist + [dict(run, rebuild=True)])
+
+    for run in runs:
+        go([run])
 
 
 def _release(keep):
@@ -592,6 +716,10 @@ def run_shard(p, tier):
     split = shape["placement"].startswith("split")
     model = M.Model(shape["elems"], shape["flow"], shape["n"], split)
     with _scratch("lena-verif-c18-"):
+        if p["mode"] == "reused":
+            explore_reused(res, shape, p["depth"])
+            res.sample({"shape": shape, "history": [{"kind": "complete", "reused_pipeline": True}] * 2}, 1)
+            return res
         seen = set() if p["mode"] == "merged" else None
         _explore(res, shape, model, (), [], 0, p["depth"], seen, tier, ())
     res.sample({"shape": shape, "history": []}, 1)
@@ -607,6 +735,17 @@ def replay(case):
     keep = []
     with _scratch("lena-verif-c18-replay-"):
         hist = []
+        if any(h.get("reused_pipeline") for h in case["history"]):
+            pipe = None
+            for r, run in enumerate(case["history"]):
+                if pipe is None or run.get("rebuild"):
+                    pipe = Pipeline(shape)
+                obs = pipe.execute(run, r, keep)
+                if not _judge(res, shape, model, run, r, obs, hist):
+                    break
+                hist.append(run)
+            _release(keep)
+            return result_violations(res)
         for r, run in enumerate(case["history"]):
             if run.get("which", "all") != "all":
                 run = dict(run)
